@@ -87,6 +87,18 @@ func (e *Env) FlowAs(rename map[string]string, f func(c *flow.Ctx)) {
 	}
 }
 
+// As runs f and files the obligations it adds under another rule name: a rule that is a necessary condition of more
+// than one property is decided once per property, under that property's id.
+func (e *Env) As(rename map[string]string, f func()) {
+	n0 := len(e.S.Obs)
+	f()
+	for i := n0; i < len(e.S.Obs); i++ {
+		if r, ok := rename[e.S.Obs[i].Rule]; ok {
+			e.S.Obs[i].Rule = r
+		}
+	}
+}
+
 func shortPos(file string, line int) string {
 	if i := strings.LastIndex(file, "/"); i >= 0 {
 		if j := strings.LastIndex(file[:i], "/"); j >= 0 {
